@@ -102,6 +102,24 @@ def gen_case(rng, thorough):
     return {"params": params, "ret": ret}
 
 
+def probe_cases(rng, n):
+    """calls whose body makes one manual isinstance check that FAILS after part of its annotation matched (a fresh name in
+    front of a multi-axis specifier, the mismatch behind it): the failed check constrains nothing, the return annotation is
+    free to bind that name"""
+    out = []
+    for _ in range(n):
+        s = rng.rng(1, 4)
+        q, r = rng.shuffle(gen_dims.NAMES)[:2]
+        params = [{"name": "x0", "dims": f"{r} _", "shape": [rng.rng(1, 3), 2], "cat": "Float", "dtype": "float32"}]
+        dims, shape = rng.choice([(f"{q} *w 9", [s, 5, 8]), (f"{q} ... 9", [s, 8]), (f"{q} #*w {r}", [s, 7, 7, 0]), (f"{q} *w {q}", [s, 6, s + 1])])
+        if dims.endswith(r):
+            shape = shape[:-1] + [params[0]["shape"][0] + 1]
+        ret = {"dims": rng.choice([q, f"{q} {r}"]), "shape": None, "cat": "Shaped", "dtype": "float32"}
+        ret["shape"] = [s + 1] if ret["dims"] == q else [s + 2, params[0]["shape"][0]]
+        out.append({"params": params, "ret": ret, "probe": {"dims": dims, "shape": shape}})
+    return out
+
+
 def admissible_perms(rng, params, k):
     """permutations keeping every parameter with symbolic axes after all symbolic-free ones that
     precede it in the declaration (simple sufficient rule: permute the symbolic-free parameters that
@@ -120,7 +138,11 @@ def to_model_prog(case, order):
     if case["ret"]:
         r = case["ret"]
         ret = {"ty": arr_type(r["dims"], cat=r["cat"]), "val": arr_val(r["shape"], dtype=r["dtype"])}
-    return [{"op": "call", "kind": "new", "params": ps, "ret": ret, "bindok": True, "notc": False, "body": [], "exit": "ret"}]
+    body = []
+    if case.get("probe"):
+        # a manual `isinstance(value, annotation)` in the function body (the documented idiom) before it returns
+        body = [{"op": "check", "l": arr_type(case["probe"]["dims"]), "x": arr_val(case["probe"]["shape"])}]
+    return [{"op": "call", "kind": "new", "params": ps, "ret": ret, "bindok": True, "notc": False, "body": body, "exit": "ret"}]
 
 
 def classify(fn, args, kwargs):
@@ -160,7 +182,11 @@ def run_configs(case, order, rng):
     for ck, tc in CHECKERS.items():
         for style in ("new", "old"):
             scope = {"_ret": retval}
-            exec(f"def fn({', '.join(names)}):\n    return _ret", scope)
+            if case.get("probe"):
+                scope["_pv"], scope["_pa"] = val_of({**case["probe"], "cat": "Shaped", "dtype": "float32"}), ann_of({**case["probe"], "cat": "Shaped"})
+                exec(f"def fn({', '.join(names)}):\n    isinstance(_pv, _pa)\n    return _ret", scope)
+            else:
+                exec(f"def fn({', '.join(names)}):\n    return _ret", scope)
             fn = scope["fn"]
             fn.__annotations__ = dict(anns)
             wrapped = jaxtyped(typechecker=tc)(fn) if style == "new" else jaxtyped(tc(fn))
@@ -268,6 +294,8 @@ def run(tier, seed, out, drv, facts):
     for case in vc:
         run_case(out, drv, facts, case, rng, 1 if not thorough else 2, all_perms=True)
     out.count("variadic_signatures", len(vc))
+    for case in probe_cases(rng, 400 if thorough else 40):
+        run_case(out, drv, facts, case, rng, 0)
 
 
 def replay(rep, out, drv, facts):
